@@ -81,6 +81,8 @@ class HandlerCollection:
         # understand, so I am commenting it heavily.
         itor = Interactor(fn)
         next_selectors = []
+        # The pairs that this call adds, each with the pair it derives from
+        own = []
         seen = set()
 
         def push(selector, acc):
@@ -94,6 +96,7 @@ class HandlerCollection:
                 next_selectors.append((selector, acc))
 
         for selector, acc in self.handler_pairs:
+            source = (selector, acc)
             if not selector.immediate:
                 # Immediate selectors must match directly inside the last
                 # call, but non-immediate selectors may match in a nested
@@ -129,7 +132,9 @@ class HandlerCollection:
                 # elements of the current selector can be triggered
                 for child in selector.children:
                     push(child, acc)
+                    own.append(((child, acc), source))
         rval = HandlerCollection(next_selectors)
+        rval.own = own
         return itor, rval
 
 
@@ -153,6 +158,7 @@ class proceed:
         self.outer = HandlerCollection.current.get()
         curr = self.outer or HandlerCollection([])
         self.interactor, self.inner = curr.proceed(self.fn)
+        self.own = self.inner.own
         HandlerCollection.current.set(self.inner)
         self.suspended = False
         self.interactor.context = self
@@ -209,28 +215,29 @@ class proceed:
     def _rebase(self):
         """Whoever resumes the generator is not who it last yielded to.
 
-        Probes and overlays may have come and gone since: what the call
-        carries must not bring back the handlers of those that are over, nor
-        hide the ones that are active now from the calls it goes on to make.
+        The call is now running under the resumer's activations, with the
+        probes and overlays that are active there now: it carries on with
+        the resumer's pairs, as a call made from there would, plus those of
+        the pairs it added itself when it was entered that derive from a pair
+        the resumer still has (that of a probe that is still active, that of
+        an enclosing call that is still running).
         """
         outer_pairs = self.outer.handler_pairs if self.outer else []
-        active = {id(acc.origin) for _, acc in outer_pairs}
-        pairs = [
-            (sel, acc)
-            for sel, acc in self.inner.handler_pairs
-            if id(acc.origin) in active
-        ]
-        have = {(id(sel), id(acc)) for sel, acc in pairs}
-        pairs += [
-            (sel, acc)
-            for sel, acc in outer_pairs
-            if not sel.immediate and (id(sel), id(acc)) not in have
-        ]
-        # Precedence goes by order of activation, as it stands now
-        rank = {}
-        for i, (_, acc) in enumerate(outer_pairs):
-            rank.setdefault(id(acc.origin), i)
-        pairs.sort(key=lambda pair: rank[id(pair[1].origin)])
+        pairs = []
+        seen = set()
+
+        def push(pair):
+            key = (id(pair[0]), id(pair[1]))
+            if key not in seen:
+                seen.add(key)
+                pairs.append(pair)
+
+        for selector, acc in outer_pairs:
+            if not selector.immediate:
+                push((selector, acc))
+            for pair, (src_selector, src_acc) in self.own:
+                if src_selector is selector and src_acc is acc:
+                    push(pair)
         self.inner = HandlerCollection(pairs)
 
     def __exit__(self, typ, exc, tb):
